@@ -165,6 +165,9 @@ func Generate(p *Profile, seed uint64) *Scenario {
 			sort.Sort(sort.Reverse(sort.IntSlice(out)))
 			return out
 		}
+		if len(sc.Nodes) > 3 {
+			sc.Nodes = sc.Nodes[:3] // seconds per node: keep such runs small
+		}
 		sc.Steps = append(sc.Steps, Step{Op: "block", Adds: 1 + g.Intn(40), Seed: g.Next()}, Step{Op: "tick", Dt: 3})
 		if g.Bool() {
 			sc.Steps = append(sc.Steps, Step{Op: "block", Dels: picks(1 + g.Intn(12)), Adds: g.Intn(6), Seed: g.Next()}, Step{Op: "tick", Dt: 3})
